@@ -157,17 +157,30 @@ static void p2p(vh::Rng & r, int type, vh::Out & out)
     nn[k % DIM] = (k / DIM) % 2 ? -1 : 1;
     src.push_back(s); nrm.push_back(nn);
   }
-  PointSet<PT> ps(n), pt(n); NormalSet<PT> ns(n);
-  for (int k = 0; k < n; ++k) {
+  // for the index-based overloads the target points and their normals are stored in a shuffled order, with extra unmatched targets
+  int how = (int)r.range(0, 3);
+  const bool indexed = how == 1 || how == 3;
+  int extra = indexed ? (int)r.range(0, 10) : 0;
+  std::vector<int> tpos(n + extra); for (int k = 0; k < n + extra; ++k) {tpos[k] = k;}
+  if (indexed) {for (int k = n + extra - 1; k > 0; --k) {std::swap(tpos[k], tpos[(size_t)r.range(0, k)]);}}
+  PointSet<PT> ps(n), pt(n + extra); NormalSet<PT> ns(n + extra);
+  for (int k = 0; k < n + extra; ++k) {
+    if (k >= n) {
+      IV g, nn(DIM, 0); for (size_t a = 0; a < DIM; ++a) {g.push_back(r.range(-9, 9));} nn[(size_t)r.range(0, DIM - 1)] = 1;
+      pt[tpos[k]] = mk<PT, DIM>(g);
+      std::vector<double> nd; for (auto v : nn) {nd.push_back((double)v);}
+      ns[tpos[k]] = mkd<PT, DIM>(nd, 0.0);
+      continue;
+    }
     const IV & s = src[k]; const IV & nn = nrm[k];
     IV row = DIM == 2 ? IV{nn[0], nn[1], s[0] * nn[1] - s[1] * nn[0]} :
       IV{nn[0], nn[1], nn[2], s[1] * nn[2] - s[2] * nn[1], s[2] * nn[0] - s[0] * nn[2], s[0] * nn[1] - s[1] * nn[0]};
     long long y = 0; for (size_t j = 0; j < NP; ++j) {y += row[j] * xs[j];}
     ys.push_back(y);
     IV g; for (size_t a = 0; a < DIM; ++a) {g.push_back(s[a] + y * nn[a]);}          // target = source + (row . x*) n
-    ps[k] = mk<PT, DIM>(s); pt[k] = mk<PT, DIM>(g);
+    ps[k] = mk<PT, DIM>(s); pt[tpos[k]] = mk<PT, DIM>(g);
     std::vector<double> nd; for (auto v : nn) {nd.push_back((double)v);}
-    ns[k] = mkd<PT, DIM>(nd, 0.0);
+    ns[tpos[k]] = mkd<PT, DIM>(nd, 0.0);
   }
   {
     // input filter: the property's envelope is a normal matrix with condition number below 1e6 (we keep 1e4)
@@ -181,13 +194,13 @@ static void p2p(vh::Rng & r, int type, vh::Out & out)
     Eigen::JacobiSVD<Eigen::MatrixXd> sv(Jd.transpose() * Jd);
     if (sv.singularValues()(NP - 1) <= 0 || sv.singularValues()(0) / sv.singularValues()(NP - 1) > 1e4) {return;}
   }
-  int how = (int)r.range(0, 3);
   // scales that keep the condition number of the normal matrix below 1e6 (the property's envelope)
   double scale = r.pick(std::vector<double>{1, 0.5, 0.125, 4, 0.1, 0.25, 10, 2, 0.05});
   // histories: two long-lived estimators per point type (plain / preconditioned), reused for problems of varying sizes
   static FindRigidTransformationByLeastSquares<PT> estPlain, estPre;
   static PreconditionedPointSet<PT> pa, pb;
-  std::vector<Correspondence> cs; for (int k = 0; k < n; ++k) {cs.push_back(Correspondence((size_t)k, (size_t)k));}
+  std::vector<Correspondence> cs; for (int k = 0; k < n; ++k) {cs.push_back(Correspondence((size_t)k, (size_t)tpos[k]));}
+  if (indexed) {for (int k = n - 1; k > 0; --k) {std::swap(cs[k], cs[(size_t)r.range(0, k)]);}}             // any order of the list
   typename FindRigidTransformationByLeastSquares<PT>::TransformationMatrixType H;
   if (how == 0) {H = estPlain.find(ps, pt, ns);}
   else if (how == 1) {H = estPlain.find(ps, pt, ns, cs);}
@@ -229,25 +242,44 @@ static void generic(vh::Rng & r, bool svdPart, bool p2pPart, vh::Out & out)
   }
   if (svdPart) {
     int n = (int)r.range(4, r.coin(1, 5) ? 500 : 40);
-    int shape = (int)r.range(0, 2);                                    // generic, coplanar (3D), noisy
+    int shape = (int)r.range(0, 3);                                    // generic, coplanar (3D), noisy, a small cluster far from the origin
     std::vector<VecD> src(n), tgt(n);
+    VecD far = VecD::Zero();
+    if (shape == 3) {for (size_t a = 0; a < DIM; ++a) {far[a] = (sizeof(S) == 4 ? 300.0 : 1.0e5) * (0.3 + 0.7 * u());}}
     for (int k = 0; k < n; ++k) {
-      for (size_t a = 0; a < DIM; ++a) {src[k][a] = u() * 20;}
+      for (size_t a = 0; a < DIM; ++a) {src[k][a] = shape == 3 ? far[a] + u() : u() * 20;}
       if (shape == 1 && DIM == 3) {src[k][DIM - 1] = 1.5;}
       tgt[k] = R * src[k] + t;
       if (shape == 2) {for (size_t a = 0; a < DIM; ++a) {tgt[k][a] += u() * 0.05;}}
     }
-    PointSet<PT> ps(n), pt(n);
-    for (int k = 0; k < n; ++k) {
-      std::vector<double> a(src[k].data(), src[k].data() + DIM), b(tgt[k].data(), tgt[k].data() + DIM);
-      ps[k] = mkd<PT, DIM>(a, 1.0); pt[k] = mkd<PT, DIM>(b, 1.0);
+    // the target set is stored in its own order and may hold extra, unmatched points; the correspondence list is a
+    // permutation or a subset of the pairs (identity pairs for the aligned overloads)
+    int how = (int)r.range(0, 3);
+    const bool aligned = how == 0 || how == 2;
+    int extra = aligned ? 0 : (int)r.range(0, n / 2);
+    std::vector<int> tpos(n + extra); for (int k = 0; k < n + extra; ++k) {tpos[k] = k;}
+    if (!aligned) {for (int k = n + extra - 1; k > 0; --k) {std::swap(tpos[k], tpos[(size_t)r.range(0, k)]);}}
+    PointSet<PT> ps(n), pt(n + extra);
+    for (int k = 0; k < n + extra; ++k) {
+      if (k < n) {
+        std::vector<double> a(src[k].data(), src[k].data() + DIM), b(tgt[k].data(), tgt[k].data() + DIM);
+        ps[k] = mkd<PT, DIM>(a, 1.0); pt[tpos[k]] = mkd<PT, DIM>(b, 1.0);
+      } else {
+        std::vector<double> b(DIM); for (size_t a = 0; a < DIM; ++a) {b[a] = far[a] + u() * 20;}
+        pt[tpos[k]] = mkd<PT, DIM>(b, 1.0);
+      }
     }
-    // independent Kabsch / Umeyama solution (double), on the values the estimator actually sees
+    std::vector<Correspondence> cs;
+    int keep = aligned ? n : std::max(4, n - (int)r.range(0, n / 2));
+    std::vector<int> order(n); for (int k = 0; k < n; ++k) {order[k] = k;}
+    if (!aligned) {for (int k = n - 1; k > 0; --k) {std::swap(order[k], order[(size_t)r.range(0, k)]);}}
+    for (int k = 0; k < keep; ++k) {cs.push_back(Correspondence((size_t)order[k], (size_t)tpos[order[k]]));}
+    // independent Kabsch / Umeyama solution (double) over the matched pairs, on the values the estimator actually sees
     VecD ms = VecD::Zero(), mt = VecD::Zero();
-    for (int k = 0; k < n; ++k) {for (size_t a = 0; a < DIM; ++a) {ms[a] += (double)ps[k][a]; mt[a] += (double)pt[k][a];}}
-    ms /= n; mt /= n;
+    for (auto & c : cs) {for (size_t a = 0; a < DIM; ++a) {ms[a] += (double)ps[c.sourcePointIndex][a]; mt[a] += (double)pt[c.targetPointIndex][a];}}
+    ms /= (double)cs.size(); mt /= (double)cs.size();
     MatD C = MatD::Zero();
-    for (int k = 0; k < n; ++k) {VecD x, y; for (size_t a = 0; a < DIM; ++a) {x[a] = (double)ps[k][a] - ms[a]; y[a] = (double)pt[k][a] - mt[a];} C += y * x.transpose();}
+    for (auto & c : cs) {VecD x, y; for (size_t a = 0; a < DIM; ++a) {x[a] = (double)ps[c.sourcePointIndex][a] - ms[a]; y[a] = (double)pt[c.targetPointIndex][a] - mt[a];} C += y * x.transpose();}
     Eigen::JacobiSVD<Eigen::MatrixXd> sv(C, Eigen::ComputeFullU | Eigen::ComputeFullV);
     Eigen::MatrixXd Dg = Eigen::MatrixXd::Identity(DIM, DIM);
     if ((sv.matrixU() * sv.matrixV().transpose()).determinant() < 0) {Dg(DIM - 1, DIM - 1) = -1;}
@@ -256,14 +288,12 @@ static void generic(vh::Rng & r, bool svdPart, bool p2pPart, vh::Out & out)
     double scale = r.pick(std::vector<double>{1, 0.5, 4, 0.1, 10});
     FindRigidTransformationBySVD<PT> est;
     typename FindRigidTransformationBySVD<PT>::TransformationMatrixType H;
-    int how = (int)r.range(0, 3);
-    std::vector<Correspondence> cs; for (int k = 0; k < n; ++k) {cs.push_back(Correspondence((size_t)k, (size_t)k));}
     if (how == 0) {H = est.find(ps, pt);} else if (how == 1) {H = est.find(ps, pt, cs);}
     else {PreconditionedPointSet<PT> a(ps, (S)scale), b(pt, (S)scale); H = how == 2 ? est.find(a, b) : est.find(a, b, cs);}
     double e1 = 0, e2 = 0;
     for (size_t i = 0; i < DIM; ++i) {
       for (size_t j = 0; j < DIM; ++j) {e1 = std::max(e1, std::fabs((double)H(i, j) - Rk(i, j)));}
-      e2 = std::max(e2, std::fabs((double)H(i, DIM) - tk[i]) / 50.0);
+      e2 = std::max(e2, std::fabs((double)H(i, DIM) - tk[i]) / (50.0 + far.norm()));
     }
     MatD Hl; for (size_t i = 0; i < DIM; ++i) {for (size_t j = 0; j < DIM; ++j) {Hl(i, j) = (double)H(i, j);}}
     res.push_back(units(e1)); res.push_back(units(e2));                                            // agrees with the independent Kabsch solution
@@ -272,7 +302,7 @@ static void generic(vh::Rng & r, bool svdPart, bool p2pPart, vh::Out & out)
     if (shape != 2) {                                                                              // noise free: the motion itself
       double e3 = 0; for (size_t i = 0; i < DIM; ++i) {for (size_t j = 0; j < DIM; ++j) {e3 = std::max(e3, std::fabs((double)H(i, j) - R(i, j)));}}
       // float inputs are rounded versions of the exact targets: the recovered motion is exact up to that rounding
-      res.push_back(units(sizeof(S) == 4 ? e3 / 50.0 : e3));
+      res.push_back(units(sizeof(S) == 4 ? e3 / 50.0 : e3 / (1.0 + far.norm() / 100.0)));
     }
   }
   if (p2pPart) {
